@@ -210,9 +210,13 @@ class TypeFacts:
 
 
 def load(root: str, digest: str) -> TypeFacts:
-    os.makedirs(CACHE_DIR, exist_ok=True)
-    path = os.path.join(CACHE_DIR, f"types-{FACTS_VERSION}-{digest[:32]}.pkl")
-    lock_path = os.path.join(CACHE_DIR, f"types-{digest[:32]}.lock")
+    from . import REPO
+
+    # scratch copies (self-test variants, seeded patches) keep their facts next to the copy, so they vanish with it
+    cache_dir = CACHE_DIR if os.path.realpath(root) == os.path.realpath(REPO) else os.path.join(root, ".ramlint-cache")
+    os.makedirs(cache_dir, exist_ok=True)
+    path = os.path.join(cache_dir, f"types-{FACTS_VERSION}-{digest[:32]}.pkl")
+    lock_path = os.path.join(cache_dir, f"types-{digest[:32]}.lock")
     with open(lock_path, "w") as lock:
         fcntl.flock(lock, fcntl.LOCK_EX)
         try:
@@ -228,7 +232,8 @@ def load(root: str, digest: str) -> TypeFacts:
                     from .loader import AnalysisError
 
                     raise AnalysisError(f"mypy type-fact build failed (rc={proc.returncode}): {proc.stderr[-2000:]}")
-                _prune(path)
+                if cache_dir == CACHE_DIR:
+                    _prune(path)
                 sys.stderr.write(f"[ramlint] type facts built in {time.time() - t0:.1f}s\n")
         finally:
             fcntl.flock(lock, fcntl.LOCK_UN)
